@@ -13,7 +13,7 @@ def is_write(c):
 
 
 def clause_dedup(prog, rep, pw):
-    dd = [c for c in pw.live_calls() if K.is_storage_trait_call(c, "find_processed_welcome_by_event_id")]
+    dd = K.pure_lookup_calls(prog, pw, "find_processed_welcome_by_event_id")
     rep.floor("welcome-dedup", "dedup lookup in MDK::process_welcome", len(dd), 1)
     wr = A.ReachCache(prog, is_write)
     n = 0
